@@ -143,19 +143,43 @@ def param_unit(form, entry):
         FreshEntropy.count = 0
         ent = FreshEntropy(c)
 
+        current = {}
+
+        class GlobalGenerator(object):
+            """what a frozen scipy distribution holds as its generator: a REFERENCE to numpy's global RandomState
+            singleton (so np.random.seed governs its draws).  A deep copy of it is a detached snapshot: it keeps
+            its own position and no longer follows the global generator."""
+
+            def gamma(self_, *a, **k):
+                return current["stream"].gamma(*a, **k)
+
+            def __deepcopy__(self_, memo):
+                st_ = current["stream"]
+                snap = st_.__class__(c, st_.tag + "!detached")
+                snap.n = st_.n
+                return snap
+
+        def frozen(*a, **k):
+            fd = scipy.stats.gamma(*a, **k)
+            fd.dist._random_state = GlobalGenerator()
+            return fd
+
         def run(tag):
             stream = make_stream(c, tag)
+            current["stream"] = stream
 
             def frozen_rvs(self_, size=None, random_state=None):
                 n = 1 if size is None else int(size)
-                return stream.gamma(1.0, scale=1.0, size=n)
+                return self_.dist._random_state.gamma(1.0, scale=1.0, size=n)
             with global_rng(stream), stubs.patched((np.random, "RandomState", ent.RandomState), (rv_frozen, "rvs", frozen_rvs)):
                 if form == "tuple":
                     m.parameters = {"b": (distn.rgamma, (shape, rate)), "g": g}
                 elif form == "tuple_kwargs":
                     m.parameters = {"b": (distn.rgamma, {"shape": shape, "rate": rate}), "g": g}
+                elif form == "frozen_then_constant":
+                    pass       # configured once, before the first seeded run (see below)
                 else:
-                    m.parameters = {"b": scipy.stats.gamma(2.0, scale=0.5), "g": g}
+                    m.parameters = {"b": frozen(2.0, scale=0.5), "g": g}
                 m.initial_values = (x0, t0)
                 if c.mode == "sym":
                     with stubs.integrator_stubs(c, keyed=True):
@@ -165,6 +189,17 @@ def param_unit(form, entry):
                 if entry == "solve_determ":
                     return m.solve_determ([t1, t2], iteration=2, full_output=True)
                 return m.simulate_param([t1, t2], 2, full_output=True)
+        if form == "frozen_then_constant":
+            # set-up history BEFORE the seeded runs (its own, unrelated stream): both parameters random, then one of
+            # them fixed by a later partial dict update
+            setup = make_stream(c, "setup")
+            current["stream"] = setup
+
+            def frozen_rvs0(self_, size=None, random_state=None):
+                return self_.dist._random_state.gamma(1.0, scale=1.0, size=1 if size is None else int(size))
+            with global_rng(setup), stubs.patched((rv_frozen, "rvs", frozen_rvs0)):
+                m.parameters = {"b": frozen(2.0, scale=0.5), "g": frozen(3.0, scale=0.2)}
+                m.parameters = {"g": g}
         YA, LA = run("g")
         YB, LB = run("g")
         c.reachable("two runs completed")
@@ -189,7 +224,7 @@ class C16(Check):
                    "two outputs are equal terms, that Y equals the mean of the returned runs, and returns witnesses that a different stream "
                    "changes the output.")
     stubs = ["numpy global RNG -> symbolic stream keyed by seed", "np.random.RandomState() -> fresh unconstrained stream",
-             "rv_frozen.rvs -> draws from the global stream (scipy documents the global RandomState as default)",
+             "rv_frozen.rvs -> draws from the generator the frozen distribution holds: a reference to the global stream (scipy's default); a deep copy of it is a detached snapshot",
              "scipy integrators by contract; flows named by (f at t0, x0, t0): same ODE and initial condition => same flow",
              "adaptive tau and safety helper as uninterpreted deterministic functions"]
     assumptions = ["bit-level determinism of numpy's Mersenne twister for a given seed", "parallel (dask) runs are outside the claim"]
@@ -200,11 +235,13 @@ class C16(Check):
               stochast_unit(specs["shape_2x2"], True, 3),
               stochast_unit(specs["shape_1x2"], False, 2),
               param_unit("tuple", "solve_determ"), param_unit("frozen", "solve_determ"),
-              param_unit("tuple_kwargs", "simulate_param"), param_unit("frozen", "simulate_param")]
+              param_unit("tuple_kwargs", "simulate_param"), param_unit("frozen", "simulate_param"),
+              param_unit("frozen_then_constant", "solve_determ")]
         if tier != "quick":
             us += [stochast_unit(specs["shape_2x2"], True, 4), stochast_unit(specs["shape_2x2"], False, 3),
                    stochast_unit(expr.by_name("sir"), True, 4), stochast_unit(specs["shape_3x3"], True, 3),
-                   param_unit("tuple", "simulate_param"), param_unit("tuple_kwargs", "solve_determ")]
+                   param_unit("tuple", "simulate_param"), param_unit("tuple_kwargs", "solve_determ"),
+                   param_unit("frozen_then_constant", "simulate_param")]
         return us
 
 
